@@ -44,7 +44,8 @@ func init() {
 		check("sqrt(-486664) hex (RFC 9380 section 6.8.2)", c.Cmp(h) == 0)
 		check("u(B) = 9", ref.Base.ToMontgomeryU().Cmp(big.NewInt(9)) == 0)
 		// U_FACTOR / V_FACTOR relation
-		check("U_FACTOR is a square", func() bool { _, ok := ref.FSqrt(f["constMONTGOMERY_U_FACTOR"]); return ok }())
+		check("V_FACTOR^2 = U_FACTOR, V_FACTOR non-negative", ref.FSq(f["constMONTGOMERY_V_FACTOR"]).Cmp(f["constMONTGOMERY_U_FACTOR"]) == 0 && f["constMONTGOMERY_V_FACTOR"].Bit(0) == 0)
+		check("SQRT_AD_MINUS_ONE is the odd (negative) root, INVSQRT_A_MINUS_D the even one (RFC 9496 literals)", f["constSQRT_AD_MINUS_ONE"].Bit(0) == 1 && f["constINVSQRT_A_MINUS_D"].Bit(0) == 0)
 	})
 	register("refconst: tables ([k]B by repeated addition agrees with double-and-add), Montgomery constants", func() {
 		t := refconst.BasepointTable()
